@@ -64,7 +64,9 @@ focused_set = st.tuples(st.sampled_from(sorted(FUNCS)), st.sampled_from([tuple_f
 small = st.one_of(vals.values(1), st.sampled_from([["lit", 1], ["lit", "s"], ["lit", None], ["inst", "D1"], ["inst", "D2"]]))
 twin_set = st.tuples(st.sampled_from(["pair", "geny", "gen", "second", "pair", "geny"]), st.lists(st.tuples(small, small), min_size=1, max_size=4),
                      st.lists(trace_spec, max_size=6)).map(
-    lambda p: [[p[0], [a, b]] for a, b in p[1]] + [[p[0], [b, a] if p[0] != "geny" else [a, a]] for a, b in p[1]] + p[2])
+    lambda p: [[p[0], [a, b]] for a, b in p[1]] + [[p[0], [b, a] if p[0] != "geny" else [a, a]] for a, b in p[1]] + p[2]
+    # ... and, for the generator, the same call once more as one that yielded nothing at all
+    + ([[p[0], [a, ["tuple", []]]] for a, b in p[1]] if p[0] == "geny" else []))
 # a wide class hierarchy at ONE position under the default chain: more than five classes that share a base, some with multiple
 # inheritance (the common-base search must not depend on which member happens to come first)
 mi_family = st.tuples(st.sampled_from(sorted(FUNCS)), st.lists(st.sampled_from(["D1", "D2", "DD", "Base", "Mixed", "D3", "D4", "D5", "Mixed2"]), min_size=6, max_size=9, unique=True)).map(
@@ -102,7 +104,8 @@ def make_trace(ts, k):
         return CallTrace(fn, at, type(None), None)
     if fname == "geny":
         # one traced parameter; the second value is what the generator yielded: traces may differ ONLY in the yield type
-        return CallTrace(fn, {"p_geny": at["p_geny"]}, type(None), get_type(vals_[1], k))
+        # ... and a call whose second value is the empty tuple stands for a call of the generator that yielded NOTHING (no yield type)
+        return CallTrace(fn, {"p_geny": at["p_geny"]}, type(None), None if vs[1] == ["tuple", []] else get_type(vals_[1], k))
     if fname == "gen":
         return CallTrace(fn, at, type(None), get_type(vals_[0], k))
     if fname == "gen_ret":
